@@ -159,19 +159,28 @@ class Package(collections.namedtuple('Package', 'path, manifest')):
         if path.exists() and path.samefile(self.path):
             LOGGER.debug('Same source-target install attempt ignored')
         elif uninstalled():
-            if not zipfile.is_zipfile(self.path):
-                assert self.path.is_dir(), f'Expecting zip file or directory: {self.path}'
-                LOGGER.debug('Installing directory based package %s to %s', self.path, path)
-                shutil.copytree(self.path, path)
-            else:
-                with zipfile.ZipFile(self.path) as package:
-                    if all(self.PYSFX.search(n) for n in package.namelist()):  # is a zip-safe
-                        LOGGER.debug('Installing zip-safe package %s to %s', self.path, path)
-                        path.parent.mkdir(parents=True, exist_ok=True)
-                        path.write_bytes(self.path.read_bytes())
-                    else:
-                        LOGGER.debug('Extracting non zip-safe package %s to %s', self.path, path)
-                        package.extractall(path)
+            # built aside and renamed: an interrupted install must not leave a partial content under the final path
+            # (its manifest - possibly written first - would make it pass for installed ever after)
+            path.parent.mkdir(parents=True, exist_ok=True)
+            with tempfile.TemporaryDirectory(prefix=f'.{path.name}-', dir=path.parent) as temp:
+                aside = pathlib.Path(temp) / path.name
+                if not zipfile.is_zipfile(self.path):
+                    assert self.path.is_dir(), f'Expecting zip file or directory: {self.path}'
+                    LOGGER.debug('Installing directory based package %s to %s', self.path, path)
+                    shutil.copytree(self.path, aside)
+                else:
+                    with zipfile.ZipFile(self.path) as package:
+                        if all(self.PYSFX.search(n) for n in package.namelist()):  # is a zip-safe
+                            LOGGER.debug('Installing zip-safe package %s to %s', self.path, path)
+                            aside.write_bytes(self.path.read_bytes())
+                        else:
+                            LOGGER.debug('Extracting non zip-safe package %s to %s', self.path, path)
+                            package.extractall(aside)
+                try:
+                    aside.rename(path)
+                except OSError:  # installed by someone else in the meantime
+                    if not path.exists():
+                        raise
         setup.search(path)
         return _body.Artifact(path, self.manifest.package, **self.manifest.modules)
 
